@@ -11,7 +11,8 @@
    to be exactly [rref A] with [rank A] pivots — which is also what justifies the differential
    check of every C route against the extracted [rref] / [rank]. *)
 From Coq Require Import List NArith Arith Lia Bool Sorted.
-From M4 Require Import Base.Bits Lin.Mat Lin.Ops Lin.Spec Alg.Gauss Lin.Span Lin.Echelon Alg.GaussProofs.
+From M4 Require Import Base.Bits Lin.Mat Lin.Ops Lin.Spec Alg.Gauss Lin.Span Lin.Echelon Alg.GaussProofs
+                       Alg.GaussRef.
 Import ListNotations.
 Local Open Scope nat_scope.
 
@@ -90,6 +91,35 @@ Theorem C02_top_rref : forall (A M : mat) (piv : list nat), wf A -> wf M ->
   is_ref M piv -> row_equiv A M -> rref M = rref A /\ length piv = rank A.
 Proof. exact top_reduce_rref. Qed.
 Print Assumptions C02_top_rref.
+
+(** the NON-reduced form under the "left-most column, first row" pivot rule is unique as well
+    (definitions [first_row_rule], [lower_rel], [apply_swaps] in Alg/GaussRef.v, all intrinsic:
+    no reference to an algorithm): the rule determines the row interchanges, for fixed
+    interchanges the echelon factor of  P*A = L*E  is unique, and the model obeys the rule; so
+    every forward elimination obeying the rule returns exactly [snd (gauss_delayed false 0 A)] *)
+Theorem C02_ref_rule_det : forall (A : mat) (sw sw' : list (nat * nat)),
+  first_row_rule A sw -> first_row_rule A sw' -> sw = sw'.
+Proof. exact first_row_rule_det. Qed.
+Print Assumptions C02_ref_rule_det.
+
+Theorem C02_ref_le_unique : forall (B E E' : mat) (p p' : list nat), is_ref E p -> is_ref E' p' ->
+  lower_rel B E -> lower_rel B E' -> forall i, row E' i = row E i.
+Proof. exact ref_le_unique. Qed.
+Print Assumptions C02_ref_le_unique.
+
+Theorem C02_gauss_ref_rule : forall A : mat, wf A ->
+  exists sw piv, first_row_rule A sw /\
+    lower_rel (apply_swaps sw A) (snd (gauss_delayed false 0 A)) /\
+    is_ref (snd (gauss_delayed false 0 A)) piv /\ length sw = length piv.
+Proof. exact gauss_ref_rule. Qed.
+Print Assumptions C02_gauss_ref_rule.
+
+Theorem C02_ref_canonical : forall (A E' : mat) (sw' : list (nat * nat)) (p' : list nat),
+  wf A -> wf E' -> nr E' = nr A -> nc E' = nc A ->
+  first_row_rule A sw' -> lower_rel (apply_swaps sw' A) E' -> is_ref E' p' ->
+  E' = snd (gauss_delayed false 0 A).
+Proof. exact ref_canonical. Qed.
+Print Assumptions C02_ref_canonical.
 
 (** * Non-vacuity: the hypotheses are satisfiable and the model computes something non-trivial *)
 (** 3 x 4, rank 2 (row 2 = row 0 + row 1); column j of a row = bit j *)
@@ -187,4 +217,18 @@ Proof.
   pose proof (ref_lead _ _ 2 Href) as H2. cbn [length nth] in H0, H1, H2.
   specialize (H0 ltac:(lia)). specialize (H1 ltac:(lia)). specialize (H2 ltac:(lia)).
   vm_compute in H0, H1, H2. congruence.
+Qed.
+
+(** the hypotheses of [C02_ref_canonical] are satisfiable (for every well-formed A, in fact) *)
+Example C02_ex_ref_rule :
+  exists E' sw' p', wf E' /\ nr E' = nr exB /\ nc E' = nc exB /\ first_row_rule exB sw' /\
+                    lower_rel (apply_swaps sw' exB) E' /\ is_ref E' p' /\ length sw' = 3.
+Proof.
+  destruct (gauss_ref_rule exB (proj2 C02_ex_wf)) as [sw [piv [H1 [H2 [H3 H4]]]]].
+  exists (snd (gauss_delayed false 0 exB)), sw, piv.
+  split; [apply wfb_spec; vm_compute; reflexivity|]. split; [reflexivity|]. split; [reflexivity|].
+  split; [assumption|]. split; [assumption|]. split; [assumption|].
+  rewrite H4. rewrite (rank_canonical exB _ piv (proj2 C02_ex_wf) H3).
+  - vm_compute. reflexivity.
+  - destruct (gauss_spec_ex false exB (proj2 C02_ex_wf)) as [q [_ [_ [Heq _]]]]. exact Heq.
 Qed.
